@@ -88,7 +88,7 @@ CHECKS = {
  "C26": {
   "level": "exploration",
   "technique": "property-based testing: generated programs with a deterministic subquery/2,3 wrapper vs the reference conditional probability (and ProbLog's own top-level inference)",
-  "text": "A wrapper w(Args,P) :- subquery(Goal,P[,EvidenceList]) is added to generated programs; every answer must have probability 1 and bind P to the reference (conditional) probability of the goal instance; every instance with positive probability must be answered.",
+  "text": "A wrapper w(Args,P) :- subquery(Goal,P[,EvidenceList]) is added to generated programs; every answer must have probability 1 and bind P to the reference (conditional) probability of the goal instance; every instance with positive probability must be answered. Sub-check sequence: 2-4 subqueries (with and without evidence lists) in one grounding, each compared with the reference value of its own goal under its own evidence.",
   "note": "Reference semantics for the expected value; program-level evidence statements are removed (the statement relates subquery/3 to its own evidence list).",
  },
  "C29": {
